@@ -65,6 +65,27 @@ Print Assumptions c20_nearby_exact_partial.
 Print Assumptions c20_faraway_exact_partial.
 Print Assumptions c20_sorted.
 
+(* extendRoamMessage's floor(meters*1000)/1000, on metres scaled to integer micrometres: the reported
+   value (whole millimetres) never exceeds the distance and is less than a millimetre below it; it is
+   monotone, so the (metres, id) order of the messages is also the order of the printed values. *)
+Theorem c20_meters_rounding : forall d, (0 <= d)%Z ->
+  (0 <= round_mm d /\ 1000 * round_mm d <= d < 1000 * round_mm d + 1000)%Z.
+Proof. exact round_mm_spec. Qed.
+Print Assumptions c20_meters_rounding.
+
+Theorem c20_meters_rounding_monotone : forall a b, (a <= b)%Z -> (round_mm a <= round_mm b)%Z.
+Proof. exact round_mm_mono. Qed.
+Print Assumptions c20_meters_rounding_monotone.
+
+(* ROAM ... SCAN glob: the "scan" member of a message lists the matched neighbour itself (marked self,
+   when it exists) and exactly the other ids of the roam collection matching  neighbour-id ++ glob. *)
+Theorem c20_scan_exact : forall ids mid scan s i,
+  In (s, i) (scan_ids ids mid scan) <->
+  (s = true /\ i = mid /\ In mid ids) \/
+  (s = false /\ In i ids /\ i <> mid /\ glob_match (mid ++ scan) i = WTrue).
+Proof. exact scan_ids_spec. Qed.
+Print Assumptions c20_scan_exact.
+
 (* The pinned tree's radius test (an object measured against itself) reports a neighbour outside
    the radius: finding F8, repaired by proposed_fixes/C20-roam-radius.diff. *)
 Theorem c20_pinned_refuted :
